@@ -88,4 +88,25 @@ theorem Site.itemsSuffix_le (h : Header) (kind : Nat) (hk : kind ≤ 3) : Site.i
   · exact Nat.le_of_eq (siteVal_nat _)
   · exact Nat.le_of_eq (siteVal_nat _)
 
+/-! the accumulating `ReadUInt(int &)` and the variable `ReadHeader` passes to it -/
+
+theorem cadd_tI_nat (acc v : Nat) (h : ¬ G.accOverflow acc v) : cadd tI (acc : Int) (v : Int) = .ret ((acc + v : Nat) : Int) := by
+  have h' : ¬ ((acc : Int) > (2147483647 : Int) - (v : Int)) := h
+  have lo : tI.lo = -2147483648 := by decide
+  have hi : tI.hi = 2147483647 := by decide
+  have sg : tI.signed = true := rfl
+  simp only [cadd, arith, sg, lo, hi, if_true]
+  rw [if_pos (by constructor <;> omega)]
+  simp
+theorem Site.accNext_eq (acc v : Nat) (h : ¬ G.accOverflow acc v) : Site.accNext acc v = acc + v := by
+  unfold Site.accNext acc_next
+  rw [cadd_tI_nat acc v h]
+  exact siteVal_nat _
+theorem Site.accValue_eq (acc v : Nat) (h : ¬ G.accOverflow acc v) : Site.accValue acc v = v := by
+  unfold Site.accValue acc_value
+  rw [cadd_tI_nat acc v h]
+  exact siteVal_nat _
+theorem Site.accInit_eq (h : Header) : Site.accInit h = h.num_vars := by
+  unfold Site.accInit acc_init; exact siteVal_nat _
+
 end MpVerif.C02
